@@ -60,7 +60,7 @@ class LogicalSolver:
         with UnitEnvironment(self.env.units):
             operators = {
                 'par': OperatorPar,        # should be the last of parenthesis operators
-                'eq': CustomEq, 'ne': OperatorNe,
+                'eq': CustomEq, 'ne': CustomNe,
                 'not': CustomNot,          # needs to be after OperatorNe
                 'le': OperatorLe, 'ge': OperatorGe,
                 'lt': OperatorLt, 'gt': OperatorGt,
@@ -78,6 +78,14 @@ class CustomEq(OperatorEq):
         result = (left == right)
         tokens.put_left(result if isinstance(result, BooleanType) else BooleanType(bool(result)))
                 
+class CustomNe(OperatorNe):
+
+    def operate_binary(self, tokens):
+        # string and boolean datatypes return a plain truth value for != as well
+        left, right = tokens.get_left(), tokens.get_right()
+        result = (left != right)
+        tokens.put_left(result if isinstance(result, BooleanType) else BooleanType(bool(result)))
+
 class CustomNot(OperatorNot):
     symbol: str = Sign.NEGATE
 
